@@ -37,6 +37,35 @@ def parse_source(src):
     return t
 
 
+def strip_guarded(body):
+    """remove the statements guarded by #[cfg(mathcat_verif)] (instrumentation: a brace-balanced block or a statement up
+    to its semicolon); what the instrumentation does is not the behaviour of the library"""
+    out, i = "", 0
+    tag = "#[cfg(mathcat_verif)]"
+    while True:
+        j = body.find(tag, i)
+        if j < 0:
+            return out + body[i:]
+        out += body[i:j]
+        k = j + len(tag)
+        # the guarded item ends at the first ';' outside braces, or at the brace that closes a block opened before any ';'
+        depth, p = 0, k
+        while p < len(body):
+            ch = body[p]
+            if ch == "{":
+                depth += 1
+            elif ch == "}":
+                depth -= 1
+                if depth == 0:
+                    p += 1
+                    break
+            elif ch == ";" and depth == 0:
+                p += 1
+                break
+            p += 1
+        i = p
+
+
 def route_events(src):
     """the order of preference overrides / restores and of exit points (`?`, return, bail!) in the body of
     get_navigation_node_from_braille_position, up to its first nested fn: 0 override, 1 restore, 2 exit"""
@@ -44,6 +73,7 @@ def route_events(src):
     if not m:
         raise GenError("get_navigation_node_from_braille_position not found")
     body = re.sub(r"//[^\n]*", "", m.group(1))
+    body = strip_guarded(body)
     ev = []
     for t in re.finditer(r'set_preference\("BrailleNavHighlight"\.to_string\(\),\s*"EndPoints"|set_preference\("BrailleNavHighlight"\.to_string\(\),\s*saved_highlight_style|\?\s*[;.)]|\breturn\b|\bbail!', body):
         x = t.group(0)
